@@ -17,6 +17,20 @@ VT = "vt"          # user type identifier
 VTN = 3            # its length
 VT2 = "wt"
 VT2N = 2
+# a STRUCTURE user type with a pointer member ('at' sorts before the flat array types); on the Python side
+# (interpreter, reference) its values are plain vectors [s, q1, q2, q3]: all operations on it are member-wise
+AT = "at"
+ATN = 4
+RHS_OF = {VT: "<func>rhs", VT2: "<func>rhs2", AT: "<func>rhsa"}
+LOCALS_OF = {VT: ["u", "v", "k1", "k2", "ytmp"], VT2: ["u2", "v2"], AT: ["ua", "va"]}
+SUFFIX_OF = {VT: "", VT2: "2", AT: "a"}
+TYPES_MODULE = """module vftypes
+  type fast_t
+    real(8) :: s
+    real(8), dimension(:), pointer :: q
+  end type
+end module
+"""
 
 
 # {{{ generator
@@ -33,7 +47,8 @@ class FGen:
     arrs {name: length}, uts {name: type id}, bools."""
 
     def __init__(self, rng, memory_bias=False, two_types=False, allow_end=True, nphases=None,
-                 neq=True, max_ops=10):
+                 neq=True, max_ops=10, struct_type=False):
+        self.struct_type = struct_type
         self.rng = rng
         self.memory_bias = memory_bias
         self.two_types = two_types
@@ -54,6 +69,9 @@ class FGen:
             "<func>sf": {"kind": "scalar", "args": ["a0", "a1"], "coef": [1.0, 0.5, 2.0], "nres": 1},
             "<func>sf2": {"kind": "scalar", "args": ["a0", "a1"], "coef": [0.5, 2.0, -0.5], "nres": 2},
         }
+        if struct_type:
+            self.funcs["<func>rhsa"] = {"kind": "ut", "type": AT, "args": ["t", "y"], "coef": [0.5, 1.0, -1.5],
+                                        "nres": 1}
         if two_types:
             self.funcs["<func>rhs2"] = {"kind": "ut", "type": VT2, "args": ["t", "y"], "coef": [1.0, -1.0, 0.5],
                                         "nres": 1}
@@ -103,8 +121,8 @@ class FGen:
             if rng.random() < 0.5 and (a not in self.onebased or self.allow_onebased_subscript):
                 return ["sub", ["var", a], self.index_for(sc, sc["arrs"][a])]
             return ["call", rng.choice(["<builtin>norm_2", "<builtin>len"]), [["var", a]], {}]
-        if r < 0.95 and sc["uts"]:
-            u = rng.choice(sorted(sc["uts"]))
+        if r < 0.95 and [x for x, t in sc["uts"].items() if t != AT]:
+            u = rng.choice(sorted(x for x, t in sc["uts"].items() if t != AT))
             return ["call", rng.choice(["<builtin>norm_2", "<builtin>norm_2", "<builtin>len"]), [["var", u]], {}]
         args = [self.num_expr(sc, d - 1), self.num_expr(sc, d - 1)]
         q = rng.random()
@@ -155,7 +173,7 @@ class FGen:
         if r < 0.7:
             return ["-", ["var", rng.choice(same)], ["var", rng.choice(same)]]
         if r < 0.85:
-            f = "<func>rhs" if tid == VT else "<func>rhs2"
+            f = RHS_OF[tid]
             arg = ["var", rng.choice(same)]
             q = rng.random()
             if q < 0.45:
@@ -167,11 +185,11 @@ class FGen:
                 arg = self.ut_expr(sc, d - 1, tid)
             return ["call", f, [self.num_expr(sc, d - 1), arg], {}]
         if r < 0.89 and d >= 1:
-            f = "<func>rhs" if tid == VT else "<func>rhs2"
+            f = RHS_OF[tid]
             return ["+", ["var", rng.choice(same)],
                     ["*", rng.choice([["var", "<dt>"], ["num", 0.5]]),
                      ["call", f, [self.num_leaf(sc), ["var", rng.choice(same)]], {}]]]
-        if r < 0.93:
+        if r < 0.93 and tid != AT:
             return ["call", "<builtin>elementwise_abs", [["var", rng.choice(same)]], {}]
         if r < 0.97 and d >= 1:
             # conditional expression over user-type values (plain moves or expressions in the branches)
@@ -224,7 +242,7 @@ class FGen:
                 # temporary's last use is an unguarded statement AFTER the possible early exit
                 tid = rng.choice(sorted(set(sc["uts"].values())))
                 same = [u for u, t in sc["uts"].items() if t == tid]
-                tmp = rng.choice(["ynew", "yalt"]) + ("2" if tid != VT else "")
+                tmp = rng.choice(["ynew", "yalt"]) + SUFFIX_OF[tid]
                 ops.append(["assign", tmp, None,
                             ["+", ["var", rng.choice(same)], ["*", ["var", "<dt>"], ["var", rng.choice(same)]]], [], 0])
                 sc["uts"][tmp] = tid
@@ -385,7 +403,7 @@ class FGen:
                 tid = rng.choice(sorted(set(sc["uts"].values())))
                 rhs = self.ut_expr(sc, rng.choice([0, 1, 1, 2]), tid)
                 cands = [u for u, t in persist["uts"].items() if t == tid]
-                locs = ["u", "v", "k1", "k2", "ytmp"] if tid == VT else ["u2", "v2"]
+                locs = LOCALS_OF[tid]
                 lhs = rng.choice(cands) if cands and rng.random() < 0.35 else rng.choice(locs)
                 if rhs == ["var", lhs]:
                     continue
@@ -501,6 +519,8 @@ class FGen:
         persist = {"nums": ["<state>s", "<p>k"], "uts": {"<state>y": VT}, "arrs": [], "arrlen": {}}
         if rng.random() < 0.5:
             persist["uts"]["<p>u"] = VT
+        if self.struct_type:
+            persist["uts"]["<state>za"] = AT
         if self.two_types:
             persist["uts"]["<state>w"] = VT2
         if rng.random() < 0.4:
@@ -508,12 +528,16 @@ class FGen:
             persist["arrlen"]["<p>arr"] = rng.choice([2, 3])
         state = {"s": rng.choice([1.5, -0.5, 2.0]),
                  "y": ["array", [rng.choice([1.0, 2.0, -0.5, 0.25]) for _ in range(VTN)]]}
+        if self.struct_type:
+            state["za"] = ["array", [rng.choice([1.0, -2.0, 0.5, 0.25]) for _ in range(ATN)]]
         if self.two_types:
             state["w"] = ["array", [rng.choice([1.0, -2.0, 0.5]) for _ in range(VT2N)]]
         phases = []
         for pi, name in enumerate(names):
             sc = {"nums": ["<t>", "<dt>", "<state>s"], "bools": [], "arrs": {}, "uts": {"<state>y": VT},
                   "counters": {}}
+            if self.struct_type:
+                sc["uts"]["<state>za"] = AT
             if self.two_types:
                 sc["uts"]["<state>w"] = VT2
             body = []
@@ -562,6 +586,11 @@ class FGen:
             k = self.fresh("kk") if rng.random() < 0.5 else rng.choice(["k1", "k2", "u"])
             body.append(["call", [k], "<func>rhs", [["var", "<t>"], ["var", "<state>y"]], {}, 0])
             body.append(["assign", "<state>y", None, ["+", ["var", "<state>y"], ["*", ["var", "<dt>"], ["var", k]]], [], 0])
+            if self.struct_type:
+                ka = self.fresh("kz") if rng.random() < 0.5 else "ua"
+                body.append(["call", [ka], "<func>rhsa", [["var", "<t>"], ["var", "<state>za"]], {}, 0])
+                body.append(["assign", "<state>za", None,
+                             ["+", ["var", "<state>za"], ["*", ["var", "<dt>"], ["var", ka]]], [], 0])
             if self.two_types:
                 k2 = self.fresh("kw")
                 body.append(["call", [k2], "<func>rhs2", [["var", "<t>"], ["var", "<state>w"]], {}, 0])
@@ -569,6 +598,8 @@ class FGen:
             if rng.random() < 0.45:
                 # every component is reported at the end of the step (several output slots per method)
                 body.append(["yield", ["var", "<state>y"], VT, ["var", "<t>"], "final", 0])
+                if self.struct_type:
+                    body.append(["yield", ["var", "<state>za"], AT, ["var", "<t>"], "final", 0])
                 if self.two_types:
                     body.append(["yield", ["var", "<state>w"], VT2, ["var", "<t>"], rng.choice(["final", "t0"]), 0])
             if rng.random() < 0.8:
@@ -593,6 +624,12 @@ def registry(script):
         c = spec["coef"]
         if spec["kind"] == "ut":
             freg = register_ode_rhs(freg, spec["type"], identifier=name, input_names=("y",))
+            if spec["type"] == AT:
+                freg = freg.register_codegen(name, "fortran", f.CallCode(f"""
+                    ${{result}}%s = {fnum(c[0])} + {fnum(c[1])}*${{t}} + {fnum(c[2])}*${{y}}%s
+                    ${{result}}%q = {fnum(c[0])} + {fnum(c[1])}*${{t}} + {fnum(c[2])}*${{y}}%q
+                    """))
+                continue
             freg = freg.register_codegen(name, "fortran", f.CallCode(f"""
                 ${{result}} = {fnum(c[0])} + {fnum(c[1])}*${{t}} + {fnum(c[2])}*${{y}}
                 """))
@@ -621,7 +658,15 @@ def user_type_map(script):
     m = {VT: f.ArrayType((VTN,), f.BuiltinType("real (kind=8)"), index_vars="ivt")}
     if any(s.get("type") == VT2 for s in script["funcs"].values()):
         m[VT2] = f.ArrayType((VT2N,), f.BuiltinType("real (kind=8)"), index_vars="iwt")
+    if has_struct(script):
+        m[AT] = f.StructureType("fast_t", (
+            ("s", f.BuiltinType("real (kind=8)")),
+            ("q", f.PointerType(f.ArrayType((ATN - 1,), f.BuiltinType("real (kind=8)"), index_vars="iat")))))
     return m
+
+
+def has_struct(script):
+    return any(s.get("type") == AT for s in script["funcs"].values())
 
 
 def python_functions(script, wrap=None):
@@ -684,6 +729,10 @@ def generate(dag, script, trace=False, module="vfmod", hooks=False, instrument=F
                   call_after_state_update="notify_post_state_update")
     elif instrument:
         kw = dict(emit_instrumentation=True, timing_function="omp_get_wtime")
+    if has_struct(script):
+        kw["module_preamble"] = """
+            use vftypes
+            """
     cg = f.CodeGenerator(module, user_type_map=user_type_map(script), function_registry=freg,
                          trace=trace, **kw)
     code = cg(dag)
@@ -708,6 +757,8 @@ def persistent_kinds(dag, script):
             kinds[n] = f"ut:{VTN}"
         elif n == "<state>w":
             kinds[n] = f"ut:{VT2N}"
+        elif n == "<state>za":
+            kinds[n] = "st"
         elif n == "<p>arr":
             kinds[n] = "arr"
         else:
@@ -723,6 +774,8 @@ def driver_source(g, dag, script, ncalls):
     L = []
     A = L.append
     A("program vfdriver")
+    if has_struct(script):
+        A("  use vftypes")
     A(f"  use {g.module}, only: dagrt_state_type, vf_initialize => initialize, vf_run => run, &")
     A("    vf_shutdown => shutdown")
     A("  implicit none")
@@ -736,7 +789,10 @@ def driver_source(g, dag, script, ncalls):
             continue
         fn = nm.name_global(ir)
         val = from_jsonable(v)
-        if isinstance(val, np.ndarray):
+        if kinds[ir] == "st":
+            A(f"  type(fast_t) :: in_{fn}")
+            init_args.append(f"{fn}=in_{fn}")
+        elif isinstance(val, np.ndarray):
             A(f"  real(8), dimension({len(val)}) :: in_{fn}")
             init_args.append(f"{fn}=in_{fn}")
         else:
@@ -748,7 +804,11 @@ def driver_source(g, dag, script, ncalls):
             continue
         fn = nm.name_global(ir)
         val = from_jsonable(v)
-        if isinstance(val, np.ndarray):
+        if kinds[ir] == "st":
+            A(f"  allocate(in_{fn}%q({ATN - 1}))")
+            A(f"  in_{fn}%s = {fnum(val.tolist()[0])}")
+            A(f"  in_{fn}%q = (/ " + ", ".join(fnum(x) for x in val.tolist()[1:]) + " /)")
+        elif isinstance(val, np.ndarray):
             A(f"  in_{fn} = (/ " + ", ".join(fnum(x) for x in val.tolist()) + " /)")
     A("  call vf_initialize(" + ", &\n    ".join(init_args) + ")")
     A(f"  do k = 1, {ncalls}")
@@ -760,6 +820,12 @@ def driver_source(g, dag, script, ncalls):
         tag = ir
         if kd == "num":
             A(f"    write(*,'(A,1X,ES25.17E3)') 'VFNUM {tag}', stp%{fn}")
+        elif kd == "st":
+            A(f"    if (associated(stp%{fn})) then")
+            A(f"      write(*,'(A,*(1X,ES25.17E3))') 'VFVEC {tag}', stp%{fn}%s, stp%{fn}%q")
+            A("    else")
+            A(f"      write(*,'(A)') 'VFUNSET {tag}'")
+            A("    end if")
         elif kd.startswith("ut"):
             A(f"    if (associated(stp%{fn})) then")
             A(f"      write(*,'(A,*(1X,ES25.17E3))') 'VFVEC {tag}', stp%{fn}")
@@ -776,12 +842,18 @@ def driver_source(g, dag, script, ncalls):
         rs, rt, ri = (nm.name_global(f"<ret_state>{c}"), nm.name_global(f"<ret_time>{c}"),
                       nm.name_global(f"<ret_time_id>{c}"))
         A(f"    if (associated(stp%{rs})) then")
-        A(f"      write(*,'(A,*(1X,ES25.17E3))') 'VFRET {c}', stp%{rt}, stp%{ri}, stp%{rs}")
+        if c == AT:
+            A(f"      write(*,'(A,*(1X,ES25.17E3))') 'VFRET {c}', stp%{rt}, stp%{ri}, stp%{rs}%s, stp%{rs}%q")
+        else:
+            A(f"      write(*,'(A,*(1X,ES25.17E3))') 'VFRET {c}', stp%{rt}, stp%{ri}, stp%{rs}")
         A("    else")
         A(f"      write(*,'(A)') 'VFNORET {c}'")
         A("    end if")
     A("  end do")
     A("  call vf_shutdown(dagrt_state=stp)")
+    for sname, v in sorted(script["state"].items()):
+        if kinds.get("<state>" + sname) == "st":
+            A(f"  deallocate(in_{nm.name_global('<state>' + sname)}%q)")
     A("  write(*,'(A)') 'VFDONE'")
     A("end program")
     return "\n".join(L) + "\n"
@@ -974,7 +1046,10 @@ def execute(script, flags=None, env=None, trace=False, valgrind=False, keep_dir=
     obs.driver = driver_source(g, dag, script, ncalls)
     flags = list(flags if flags is not None else fort.SAN_FLAGS)
     with fort.Scratch("vf-ftn-") as d:
-        rc, out = fort.compile_(d, [("vfmod.f90", g.code), ("driver.f90", obs.driver)], exe="prog",
+        srcs = [("vfmod.f90", g.code), ("driver.f90", obs.driver)]
+        if has_struct(script):
+            srcs.insert(0, ("vftypes.f90", TYPES_MODULE))
+        rc, out = fort.compile_(d, srcs, exe="prog",
                                 flags=flags + ["-ffree-line-length-none"], libs=["lapack", "blas"])
         if rc != 0:
             obs.compile_error = out
